@@ -147,9 +147,13 @@ CHECKS = {
         "rule": ("one evaluation = one simulated history of 1-60 store operations (add, batch add with repeated IDs, "
                  "in-place updates, delete, false-positive mark, rebuild, flush, compaction, close/reopen, threshold/tolerance) "
                  "over tiny ID/hash/entropy pools on the simulated disk with per-run Pebble tuning; after every step every lookup "
-                 "is compared with a brute-force pass over the reference model. Non-trivial = at least 3 mutations and at least one "
+                 "is compared with a brute-force pass over the reference model. A second job interleaves 2-3 concurrent writer tasks (adds, batch updates, deletes, "
+                 "false-positive marks) under the tape-driven scheduler and checks the quiescent end state the same way against the surviving records. Non-trivial = at least 3 mutations and at least one "
                  "update/delete of an existing ID; distinct = distinct operation sequences (hash of the decoded history)."),
-        "jobs": [{"engine": "storesim-faultfree", "bin": "pebbledb", "test": "TestVerifC06", "cfg": {}}],
+        "jobs": [
+            {"engine": "storesim-faultfree", "bin": "pebbledb", "test": "TestVerifC06", "cfg": {}, "weight": 13},
+            {"engine": "storesim-concurrent", "bin": "pebbledb", "test": "TestVerifC11", "cfg": {"writers_only": "1"}, "weight": 3},
+        ],
         "assumptions": ["A1: the database directory exists and is durable before the workload starts",
                         "timestamps inside false-positive notes and export headers are masked (explicit time fields)"],
         "real_vs_stub": STORE_STUB,
